@@ -96,15 +96,19 @@ theorem storeNets_one (n : Node) : One n (storeNets n).1 := by
     · exact Or.inl hk
   · exact one_of_quiet (quiet_of_eq hkv hh)
 
-theorem purgeResum_quiet (n : Node) (idx : Nat) : Quiet n (purgeResum n idx).1 := by
-  have ⟨_, _, _, _, _, _, _, _, _, hst⟩ := purgeResum_spec n idx
-  rcases hst with ⟨hkv, hh⟩ | ⟨_, hkv, hh⟩
+theorem storeResum_quiet (n : Node) : Quiet n (storeResum n).1 := by
+  have ⟨_, _, _, hst⟩ := storeResum_spec n
+  rcases hst with ⟨_, hkv, hh, _⟩ | ⟨_, hkv, hh, _⟩
   · exact quiet_of_eq hkv hh
   · refine ⟨by rw [hkv]; exact same_of_fabs_nets rfl rfl, fun kv hk => ?_⟩
     rw [hh] at hk
     rcases List.mem_cons.mp hk with rfl | hk
     · exact Or.inr (same_of_fabs_nets rfl rfl)
     · exact Or.inl hk
+
+theorem purgeResum_quiet (n : Node) (idx : Nat) : Quiet n (purgeResum n idx).1 :=
+  quiet_trans (quiet_of_eq (n' := { n with resum := n.resum.filter (fun r => r.fab ≠ idx) }) rfl rfl)
+    (storeResum_quiet _)
 
 theorem expireArmed_kv (cfg : Cfg) (n : Node) (a : Armed) (exp : Option Nat) :
     (expireArmed cfg n a exp).1.kv = n.kv ∧ (expireArmed cfg n a exp).1.hist = n.hist := by
@@ -173,14 +177,40 @@ theorem write_one (n : Node) (f f' : Fabric) :
     rw [hst] at h'
     cases b <;> exact h'
 
+/-- `addNoc` (the command after the retry of a failed resumption-cache store) never touches the store -/
+theorem addNoc_store_untouched (cfg : Cfg) (n : Node) (sid : Nat) (mode : Mode) (ca fid node subj ser : Nat) :
+    (addNoc cfg n sid mode ca fid node subj ser).1.kv = n.kv ∧
+    (addNoc cfg n sid mode ca fid node subj ser).1.hist = n.hist := by
+  simp only [addNoc]
+  repeat' split
+  all_goals exact ⟨rfl, rfl⟩
+
+/-- AddNOC writes no fabric / network key: at most the resumption blob (the retry of a failed store) -/
+theorem sessOp_addnoc_quiet (cfg : Cfg) (n : Node) (sid s ca fid node subj ser : Nat) (mode : Mode) :
+    Quiet n (sessOp cfg n sid mode (.addnoc s ca fid node subj ser)).1 := by
+  simp only [sessOp]
+  rcases retryResum_cases n with hr | hr
+  · rw [hr]
+    have := addNoc_store_untouched cfg n sid mode ca fid node subj ser
+    exact quiet_of_eq this.1 this.2
+  · rw [hr]
+    have h1 := storeResum_quiet n
+    rcases hst : storeResum n with ⟨n1, b⟩
+    rw [hst] at h1
+    cases b with
+    | false => exact h1
+    | true =>
+      have := addNoc_store_untouched cfg n1 sid mode ca fid node subj ser
+      exact quiet_trans h1 (quiet_of_eq this.1 this.2)
+
 /-- the commands that never touch the store -/
 theorem sessOp_store_untouched (cfg : Cfg) (n : Node) (sid : Nat) (mode : Mode) (op : Op)
     (hop : (∃ s u, op = .csr s u) ∨ (∃ s c, op = .root s c) ∨
-           (∃ s c f nd a r, op = .addnoc s c f nd a r) ∨ (∃ s nd r, op = .updnoc s nd r) ∨
+           (∃ s nd r, op = .updnoc s nd r) ∨
            (∃ s v, op = .net s v) ∨ (∃ s v, op = .rmnet s v) ∨ (∃ s t, op = .arm s t ∧ t ≠ 0) ∨
            (∃ s v, op = .bcw s v) ∨ (∃ s, op = .openW s)) :
     (sessOp cfg n sid mode op).1.kv = n.kv ∧ (sessOp cfg n sid mode op).1.hist = n.hist := by
-  rcases hop with ⟨s, u, rfl⟩ | ⟨s, c, rfl⟩ | ⟨s, c, f, nd, a, r, rfl⟩ | ⟨s, nd, r, rfl⟩ | ⟨s, v, rfl⟩ | ⟨s, v, rfl⟩ |
+  rcases hop with ⟨s, u, rfl⟩ | ⟨s, c, rfl⟩ | ⟨s, nd, r, rfl⟩ | ⟨s, v, rfl⟩ | ⟨s, v, rfl⟩ |
     ⟨s, t, rfl, ht⟩ | ⟨s, v, rfl⟩ | ⟨s, rfl⟩
   all_goals simp only [sessOp]
   all_goals repeat' split
@@ -201,7 +231,7 @@ theorem sessOp_one (cfg : Cfg) (n : Node) (sid : Nat) (mode : Mode) (op : Op) (h
       rw [hr] at this
       cases e <;> exact one_of_quiet this
     · have := sessOp_store_untouched cfg n sid mode (.arm s secs)
-        (Or.inr (Or.inr (Or.inr (Or.inr (Or.inr (Or.inr (Or.inl ⟨s, secs, rfl, h0⟩)))))))
+        (Or.inr (Or.inr (Or.inr (Or.inr (Or.inr (Or.inl ⟨s, secs, rfl, h0⟩))))))
       exact one_of_quiet (quiet_of_eq this.1 this.2)
   | csr s upd =>
     have := sessOp_store_untouched cfg n sid mode (.csr s upd) (by simp)
@@ -210,8 +240,7 @@ theorem sessOp_one (cfg : Cfg) (n : Node) (sid : Nat) (mode : Mode) (op : Op) (h
     have := sessOp_store_untouched cfg n sid mode (.root s ca) (by simp)
     exact one_of_quiet (quiet_of_eq this.1 this.2)
   | addnoc s ca fid node subj ser =>
-    have := sessOp_store_untouched cfg n sid mode (.addnoc s ca fid node subj ser) (by simp)
-    exact one_of_quiet (quiet_of_eq this.1 this.2)
+    exact one_of_quiet (sessOp_addnoc_quiet cfg n sid s ca fid node subj ser mode)
   | updnoc s node ser =>
     have := sessOp_store_untouched cfg n sid mode (.updnoc s node ser) (by simp)
     exact one_of_quiet (quiet_of_eq this.1 this.2)
@@ -465,19 +494,11 @@ theorem step_snaps (cfg : Cfg) (n : Node) (op : Op) (hop : op ≠ .freset) : Ste
       rw [hr] at this
       cases e <;> exact one_of_quiet this
     | flush =>
-      have ⟨_, hkv, hh⟩ := kvTick_frame n
-      rcases ht : kvTick n with ⟨n1, bad⟩
-      rw [ht] at hkv hh
-      simp only at hkv hh
-      simp only [step, isSessOp, ht]
-      cases bad with
-      | true => simp only [if_true]; exact one_of_quiet (quiet_of_eq hkv hh)
-      | false =>
-        simp only [Bool.false_eq_true, if_false, ok, kvCommit]
-        refine one_of_quiet ⟨same_of_fabs_nets (by simp [hkv]) (by simp [hkv]), fun kv hk => ?_⟩
-        rcases List.mem_cons.mp hk with rfl | hk
-        · exact Or.inr (same_of_fabs_nets (by simp [hkv]) (by simp [hkv]))
-        · exact Or.inl (by rw [← hh]; exact hk)
+      simp only [step, isSessOp]
+      have h1 := storeResum_quiet n
+      rcases hst : storeResum n with ⟨n1, b⟩
+      rw [hst] at h1
+      cases b <;> exact one_of_quiet h1
     | restart =>
       simp only [step, isSessOp, ok]
       have ⟨h1, h2⟩ := restartFrom_snaps n n.kv n.hist
